@@ -353,5 +353,16 @@ def rule_r7(ctx) -> RuleResult:
     return rr
 
 
+def rule_r8(ctx) -> RuleResult:
+    """frame:preprocess / expandTemplate / callParserFunction are equivalent to writing the wikitext in the calling frame only if
+    each call really expands in that frame; an answer taken from a table of earlier results ignores the frame's arguments
+    (shared with C13.R9)."""
+    from ..core.report import shared
+    from . import c13
+
+    return shared(c13.rule_r9(ctx), "C08.R8", "the frame methods expand on every call, not from a table of earlier results (shared with C13.R9)",
+                  "the frame method returns what an earlier call with the same text produced in another frame", min_instances=20)
+
+
 def run(ctx) -> list:
-    return [rule_r1(ctx), rule_r2(ctx), rule_r3(ctx), rule_r4(ctx), rule_r5(ctx), rule_r6(ctx), rule_r7(ctx)]
+    return [rule_r1(ctx), rule_r2(ctx), rule_r3(ctx), rule_r4(ctx), rule_r5(ctx), rule_r6(ctx), rule_r7(ctx), rule_r8(ctx)]
